@@ -12,6 +12,38 @@ func (e *Engine) mergeAll(states []*State) []*State {
 	if len(states) == 1 {
 		return states
 	}
+	if e.MergeFull {
+		return e.mergeList(states)
+	}
+	// state matching: only identical states are joined
+	groups := map[uint64][]*State{}
+	var order []uint64
+	for _, s := range states {
+		if s.Dead {
+			continue
+		}
+		fp := e.fingerprint(s)
+		if _, ok := groups[fp]; !ok {
+			order = append(order, fp)
+		}
+		groups[fp] = append(groups[fp], s)
+	}
+	var out []*State
+	for _, fp := range order {
+		g := groups[fp]
+		if len(g) == 1 {
+			out = append(out, g[0])
+		} else {
+			out = append(out, e.mergeList(g)...)
+		}
+	}
+	if len(out) > 1 {
+		e.Stats.Unmergeable += len(out) - 1
+	}
+	return out
+}
+
+func (e *Engine) mergeList(states []*State) []*State {
 	var acc []*State
 	for _, s := range states {
 		if s.Dead {
@@ -26,7 +58,7 @@ func (e *Engine) mergeAll(states []*State) []*State {
 			}
 		}
 		if !merged {
-			if len(acc) > 0 {
+			if len(acc) > 0 && e.MergeFull {
 				e.Stats.Unmergeable++
 			}
 			acc = append(acc, s)
@@ -42,6 +74,9 @@ type merger struct {
 }
 
 func (m *merger) S() *term.Term {
+	if !m.e.MergeFull {
+		fail("states differ (state-matching mode)")
+	}
 	if m.sel == nil {
 		m.e.nsel++
 		m.sel = term.Var(fmt.Sprintf("sel!%d", m.e.nsel), term.Bool)
